@@ -1,7 +1,7 @@
 // C16 — The session table stays consistent under any sequence of operations (stateful, model-based).
 #include "rcx.hpp"
 
-// ops: 1 add(key, seq, table) 2 find(key, seq, table) 3 remove(key, table) 4 clear(table) 5 set_complete(key, flag, table)+status update
+// ops: 8 complete-all(flag, table) 1 add(key, seq, table) 2 find(key, seq, table) 3 remove(key, table) 4 clear(table) 5 set_complete(key, flag, table)+status update
 //      6 tick(table) 7 advance(ms)            -- two independent tables: whatever one does must not influence the other
 struct MEntry { uint16_t seq; bool complete; uint64_t last_ms; };
 using Key = std::pair<uint64_t, uint16_t>;   // (mac, generation)
@@ -111,6 +111,19 @@ static Verdict run(const Case &c) {
                 if (v.ok) check_all_complete(i, "set_complete", tb);
                 break;
             }
+            case 8: {   // every live session of this table is acknowledged at once (a[1] = 1) or none is any more (0), then the status update
+                for (int idx = 0; idx < CAP; idx++) {
+                    br_entry be; br_st_get(t, idx, &be);
+                    if (!be.valid) continue;
+                    void *e = br_st_find(t, be.mac, be.generation, be.seq);
+                    if (e) br_entry_set_complete(e, (int)(op.arg(1) & 1));
+                }
+                for (auto &kv : model) kv.second.complete = op.arg(1) & 1;
+                br_st_update(t);
+                invariants(i, "complete-all");
+                if (v.ok) check_all_complete(i, "complete-all", tb);
+                break;
+            }
             case 6: {
                 br_tick(nullptr, nullptr, t, nullptr, nullptr, nullptr, 0);
                 size_t before = model.size();
@@ -163,6 +176,7 @@ int main(int argc, char **argv) {
             else if (k <= 10) { o.kind = 2; o.a = {key, *gx::range<int64_t>(0, 0xFFFF), tb}; }
             else if (k <= 12) { o.kind = 3; o.a = {key, 0, tb}; }
             else if (k == 13) { o.kind = *gx::chance(30) ? 4 : 2; o.a = {key, 0, tb}; }
+            else if (k == 14) { o.kind = *gx::chance(35) ? 8 : 5; o.a = {key, *gx::pick({0, 1, 1, 1}), tb}; }
             else if (k <= 15) { o.kind = 5; o.a = {key, *gx::pick({0, 1, 1}), tb}; }
             else if (k <= 17) { o.kind = 6; o.a = {0, 0, tb}; }
             else { o.kind = 7; o.a = {*gx::bnd({0, 1, 999, 1000, 59000, 59999, 60000, 60001, 60999, 61000, 61001, 120000}, 0, 200000, 3, 1)}; }
